@@ -20,6 +20,7 @@ List-level vocabulary used in the statements (definitions in Proofs/WM.lean, all
   `S w V w` = the sequence stored (conceptually) below the last level.
 -/
 import Sds.Proofs.Glue2
+import Sds.Proofs.GenEqIdx
 
 namespace Sds.C04
 open Sds Outcome
@@ -275,5 +276,22 @@ example : (([5, 0, 5, 9, 0].take 3).count 5 = 2 ∧ selectVal [5, 0, 5, 9, 0] 5 
 /-- the hypothesis of `absent_values_have_no_occurrences` is met by a missing value and by one outside the
 alphabet -/
 example : (7 ∉ [5, 0, 5, 9, 0]) ∧ (16 ∉ [5, 0, 5, 9, 0]) := by decide
+
+/-! **The level steps of `wm_core.rs` as translated from the source on this run** (`Generated/FnsIdx.lean`):
+`bit_value`, `map_down_one`, `map_down_zero`, `map_up_one` (with the `checked_sub` of the repair of F4) and `map_up_zero`.
+The code as it is NOW is the model function the theorems above are about; `map_down_one` adds in `usize`, which cannot
+overflow on a level shorter than 2^64 bits (`zeros + rank ≤ len`). -/
+theorem wm_level_steps_as_translated_from_source (m : Mode) (c : WMCore) (i l : Nat) :
+    (l < c.width → c.width ≤ 64 → Generated.gen_WMCore_bit_value m c l = ok (BitVec.ofNat 64 (c.bitValue l))) ∧
+    ((∀ b r, c.level l = ok b → b.rankQ i = ok r → b.countZeros + r < U64) →
+      Generated.gen_WMCore_map_down_one m c i l = c.mapDownOne i l) ∧
+    Generated.gen_WMCore_map_down_zero m c i l = c.mapDownZero m i l ∧
+    Generated.gen_WMCore_map_up_one m c i l = c.mapUpOne m i l ∧
+    Generated.gen_WMCore_map_up_zero m c i l = c.mapUpZero m i l :=
+  ⟨fun h1 h2 => GenEq.wm_bit_value_eq m c l h1 h2, fun hs => GenEq.wm_map_down_one_eq_model m c i l hs,
+   GenEq.wm_map_down_zero_eq m c i l, GenEq.wm_map_up_one_eq m c i l, GenEq.wm_map_up_zero_eq m c i l⟩
+
+/-- the translated `map_up_one` below the zero count answers `None` (finding F4) instead of wrapping around -/
+example : Generated.gen_WMCore_map_up_one .checked (WMCore.ofValues [0, 1]) 0 0 = ok none := by decide +kernel
 
 end Sds.C04
